@@ -691,7 +691,7 @@ func toOps(recs []Rec, skip int) []porcupine.Operation {
 	return ops
 }
 
-const checkTimeout = 60 * time.Second
+const checkTimeout = 120 * time.Second
 
 var blamed atomic.Int32
 
